@@ -48,7 +48,7 @@ def handle (op : String) (args : List String) (impl : String) : String :=
     match parseReq cfg with
     | none => badReq "cfg"
     | some r =>
-      if !impl.startsWith "ok " then answer "err" (if impl == "err" then "dontcare" else "fails:" ++ impl) "build-rejected" else
+      if !impl.startsWith "ok " then answer "ok" (if impl == "err" then "dontcare" else "fails:" ++ impl) "build-rejected" else
       let itoks := (impl.splitOn " ").filter (· ≠ "")
       -- the main header is not touched by sign / clear: its digest is the digest of what the model builds,
       -- which needs the payload digests; they are not part of this observation, so the model copies `hreal`
@@ -62,7 +62,7 @@ def handle (op : String) (args : List String) (impl : String) : String :=
     match parseReq args with
     | none => badReq "cfg"
     | some r =>
-      if !impl.startsWith "ok " then answer "err" (if impl == "err" then "dontcare" else "fails:" ++ impl) "build-rejected" else
+      if !impl.startsWith "ok " then answer "ok" (if impl == "err" then "dontcare" else "fails:" ++ impl) "build-rejected" else
       let itoks := (impl.splitOn " ").filter (· ≠ "")
       let paysha := tok itoks "paysha"; let archsha := tok itoks "archsha"
       let hdr := mainHeader r.cfg r.now paysha.toUTF8.toList archsha.toUTF8.toList
